@@ -29,7 +29,7 @@ Qed.
 
 Lemma inv_step s o : Inv s -> Inv (fst (step s o)).
 Proof.
-  intro I. destruct o as [c|c f i|c f i|c|c|c|live ids]; simpl.
+  intro I. destruct o as [c|c f i|c f i|c|c|c|live ids|df dids]; simpl.
   - apply inv_add_channel; exact I.
   - pose proof (inv_add_channel s c I) as I1.
     destruct (aget c (add_channel s c)) as [ch|] eqn:E; simpl; [|exact I1].
@@ -45,6 +45,7 @@ Proof.
     + rewrite aget_adel_other in G by exact N. eauto.
   - exact I.
   - destruct (aget c s); exact I.
+  - exact I.
   - exact I.
 Qed.
 
@@ -63,7 +64,7 @@ Proof. apply inv_run_from. apply inv_init. Qed.
 Lemma lookup_step s o c f : lookup (fst (step s o)) c f = mstep c f (lookup s c f) o.
 Proof.
   unfold lookup.
-  destruct o as [c'|c' f' i|c' f' i|c'|c'|c'|live ids]; simpl.
+  destruct o as [c'|c' f' i|c' f' i|c'|c'|c'|live ids|df dids]; simpl.
   - (* AddChannel *)
     unfold add_channel. destruct (Z.eqb_spec c c') as [->|N].
     + destruct (aget c' s) eqn:E; [rewrite E; reflexivity|].
@@ -101,6 +102,7 @@ Proof.
     + rewrite aget_adel_other by exact N. reflexivity.
   - reflexivity.
   - destruct (aget c' s); reflexivity.
+  - reflexivity.
   - reflexivity.
 Qed.
 
@@ -210,12 +212,13 @@ Definition touches (o : op) (c f : Z) : bool :=
 Lemma frame h o c f : touches o c f = false -> ids (members (h ++ [o]) c f) = ids (members h c f).
 Proof.
   intro T. rewrite members_snoc.
-  destruct o as [c'|c' f' i|c' f' i|c'|c'|c'|live l]; simpl in *.
+  destruct o as [c'|c' f' i|c' f' i|c'|c'|c'|live l|df dids]; simpl in *.
   - destruct (Z.eqb c c'); [|reflexivity]. destruct (members h c f) as [[g|]|]; reflexivity.
   - destruct (Z.eqb c c'); [|reflexivity]. simpl in T. rewrite T.
     destruct (members h c f) as [[g|]|]; reflexivity.
   - rewrite T. reflexivity.
   - rewrite T. reflexivity.
+  - reflexivity.
   - reflexivity.
   - reflexivity.
   - reflexivity.
@@ -240,7 +243,7 @@ Lemma join_order h c f : subseq (ids (members h c f)) (adds_of h c f).
 Proof.
   induction h as [|o r IH] using rev_ind; [constructor|].
   rewrite members_snoc, adds_of_snoc.
-  destruct o as [c'|c' f' i|c' f' i|c'|c'|c'|live l]; simpl; rewrite ?app_nil_r.
+  destruct o as [c'|c' f' i|c' f' i|c'|c'|c'|live l|df dids]; simpl; rewrite ?app_nil_r.
   - destruct (Z.eqb c c'); [|exact IH]. destruct (members r c f) as [[g|]|]; exact IH.
   - destruct (Z.eqb c c'); simpl; [|rewrite app_nil_r; exact IH].
     destruct (Z.eqb f f'); simpl.
@@ -253,6 +256,7 @@ Proof.
     destruct (members r c f) as [[g|]|]; simpl in *; try exact IH.
     eapply subseq_trans; [apply remove_first_subseq | exact IH].
   - destruct (Z.eqb c c'); [constructor | exact IH].
+  - exact IH.
   - exact IH.
   - exact IH.
   - exact IH.
@@ -271,7 +275,7 @@ Lemma exists_after_step h o c :
   end.
 Proof.
   unfold exists_after. rewrite members_snoc.
-  destruct o as [c'|c' f' i|c' f' i|c'|c'|c'|live l]; cbn [mstep]; try reflexivity.
+  destruct o as [c'|c' f' i|c' f' i|c'|c'|c'|live l|df dids]; cbn [mstep]; try reflexivity.
   - destruct (Z.eqb c c'); [|reflexivity]. destruct (members h c 0); reflexivity.
   - destruct (Z.eqb c c'); [|reflexivity]. destruct (Z.eqb 0 f'); [reflexivity|].
     destruct (members h c 0); reflexivity.
